@@ -13,6 +13,7 @@ type Dgram struct {
 	Data []byte
 	At   time.Duration
 	Seq  int // arrival sequence number at the socket
+	Step int // global event sequence number (scheduler step) of the arrival / send
 }
 
 // PacketSock is a simulated server-side UDP socket (net.PacketConn).
@@ -100,7 +101,7 @@ func (p *PacketSock) WriteTo(b []byte, addr net.Addr) (int, error) {
 	}
 	to := addr.String()
 	p.sendSeq[to]++
-	p.Sent = append(p.Sent, Dgram{Peer: to, Data: append([]byte(nil), b...), At: s.Elapsed(), Seq: len(p.Sent)})
+	p.Sent = append(p.Sent, Dgram{Peer: to, Data: append([]byte(nil), b...), At: s.Elapsed(), Seq: len(p.Sent), Step: s.StepLocked()})
 	if ch, ok := p.inbox[to]; ok {
 		poke(ch)
 	}
@@ -180,7 +181,7 @@ func (p *PacketSock) Send(from *net.UDPAddr, data []byte, f UDPFaults) {
 		s.AtLocked(at.Sub(now), label, func() {
 			s.Lock()
 			if !p.closed {
-				dg := Dgram{Peer: key, Data: d, At: s.Elapsed(), Seq: len(p.Arrivals)}
+				dg := Dgram{Peer: key, Data: d, At: s.Elapsed(), Seq: len(p.Arrivals), Step: s.StepLocked()}
 				p.Arrivals = append(p.Arrivals, dg)
 				p.queue = append(p.queue, dg)
 				poke(p.notify)
